@@ -407,7 +407,7 @@ pub fn families_opt(tier: Tier, _variant: &str, mode: Mode, with_viable: bool) -
     v.push(seq_family("t16-full", gen::T16, if q { 3 } else { 5 }, b"", b"", dc(if q { full } else { f3 })));
     if with_viable {
         let d = dc(if q { f2 } else { f3 });
-        let (l, dev, more) = if q { (5, 1, 1) } else { (7, 2, 1) };
+        let (l, dev, more) = if q { (5, 1, 1) } else { (6, 2, 1) };
         // one case = one viable prefix with all its bounded deviations
         v.push(viable_family(&format!("t16-viable<={l}+deviations<={dev}+tail<={more}"), l, dev, more, move |doc, ctx| check_doc(ctx, doc, &d)));
     }
